@@ -94,3 +94,34 @@ func VerifDecoderMalloc() {
 	}
 	decoderPool.Put(d)
 }
+
+// VerifHavocPools (C07): puts pooled scratch objects with ARBITRARY (symbolic) contents into the pools,
+// constrained only by the objects' representation invariants, so that one call covers every call history:
+//
+//	bitset: all 1024 words arbitrary;
+//	unknown-field index: arbitrary sz, 0..2 stale entries with arbitrary off/sz;
+//	decoder: bump allocator at an arbitrary frontier 0 <= p <= n of its (garbage-filled) block.
+func VerifHavocPools() {
+	bs := bitsetPool.Get().(*bitset)
+	vrt.HavocBytes("pool.bitset", unsafe.Pointer(bs), int(unsafe.Sizeof(*bs)))
+	bitsetPool.Put(bs)
+
+	ufs := unknownFieldsPool.Get().(*unknownFields)
+	ufs.sz = int(vrt.U64("pool.ufs.sz"))
+	k := vrt.Choice("pool.ufs.n", 3)
+	ufs.offs = ufs.offs[:0]
+	for i := 0; i < k; i++ {
+		ufs.offs = append(ufs.offs, unknownFieldIdx{off: int(vrt.U64("pool.ufs.off")), sz: int(vrt.U64("pool.ufs.sz"))})
+	}
+	unknownFieldsPool.Put(ufs)
+
+	d := decoderPool.Get().(*tDecoder)
+	// frontier classes: every residue mod 8 near the start, and positions at / next to the end of the block
+	// (span.Malloc itself is covered for every p by the inductive lemma VerifSpanLemma)
+	fr := []int{0, 1, 4, 7, 8, 2041, 2048}
+	d.s.p = fr[vrt.Choice("pool.span.p", len(fr))]
+	if d.s.p > d.s.n {
+		d.s.p = d.s.n
+	}
+	decoderPool.Put(d)
+}
